@@ -60,6 +60,12 @@ func runC04(r *Run) {
 		"(tbsCertList, signatureAlgorithm, signatureValue) through the real reader + verifier; unsupported algorithms; non-trivial = a candidate key exists"
 	c04Matrix(r)
 	c04BitFlips(r)
+	// "comes into force" is a matter of histories too (first load, refresh, restart with another mode, provisioning): the
+	// repository histories with the C04 reading of the acceptance oracle (whatever is in force under verify was signed by a
+	// signer that was presented / trusted for that location)
+	rule := r.rule
+	runRepoProps(r, "C04")
+	r.rule = rule + "; repository histories (serve / handshake / tick / provision / restart with another mode / close) with the acceptance oracle: " + r.rule
 }
 
 func c04BitFlips(r *Run) {
